@@ -1,14 +1,17 @@
 package props
 
 import (
+	"bytes"
 	"encoding/json"
 	"fmt"
+	"strings"
 	"time"
 
 	psatoken "github.com/veraison/psatoken"
 	"verif/engine/choice"
 	"verif/engine/evid"
 	"verif/engine/sched"
+	"verif/fixtures"
 	"verif/mcbor"
 	"verif/refmodel"
 )
@@ -44,7 +47,7 @@ func c07Registered(cfg []c07Entry) map[string]c07Entry {
 	return m
 }
 
-var c07Variants = []string{"own-name", "absent", "null", "unknown-url", "other-builtin-name", "ext0-name", "ext1-name", "own-tag-ext-name", "both-keys", "wrong-type"}
+var c07Variants = []string{"own-name", "absent", "null", "unknown-url", "other-builtin-name", "ext0-name", "ext1-name", "own-tag-ext-name", "both-keys", "wrong-type", "own-name-json-escaped"}
 
 type c07Token struct {
 	shape     int  // key family of the claims in the token
@@ -75,7 +78,7 @@ func c07Build(shape int, valid bool, variant int) *c07Token {
 		own, other = other, own
 	}
 	switch c07Variants[variant] {
-	case "own-name":
+	case "own-name", "own-name-json-escaped":
 		t.ownVal = own
 	case "absent":
 		t.ownAbsent = true
@@ -127,10 +130,17 @@ func c07Build(shape int, valid bool, variant int) *c07Token {
 	}
 	t.cbor = mcbor.Encode(tree)
 	t.json, _ = json.Marshal(m)
+	if c07Variants[variant] == "own-name-json-escaped" {
+		// the same string, spelled with JSON escapes: first character as \uXXXX, every '/' as \/
+		plain, _ := json.Marshal(own)
+		esc := fmt.Sprintf("\"\\u%04x%s\"", own[0], strings.ReplaceAll(own[1:], "/", "\\/"))
+		t.json = bytes.Replace(t.json, plain, []byte(esc), 1)
+	}
 	return t
 }
 
 type c07Expect struct {
+	family   int    // key family of the selected type
 	err      bool   // the non-validating decoder must fail
 	typ      string // dynamic type otherwise
 	valid    bool   // Validate() of the result
@@ -228,7 +238,7 @@ func c07Model(t *c07Token, cfg []c07Entry, isJSON bool) c07Expect {
 			return c07Expect{err: true}
 		}
 	}
-	x := c07Expect{typ: e.typ, twoProfs: two, profile: e.name}
+	x := c07Expect{typ: e.typ, twoProfs: two, profile: e.name, family: e.family}
 	// the claims as the selected type sees them
 	a := t.abstract()
 	if !isJSON && e.family != t.shape {
@@ -356,7 +366,38 @@ func c07Eval(c *choice.Ctx, st *Stats, cfgI int, isJSON bool, shape int, valid b
 			c.Failf("C07:reported-profile:"+tag, "accepted token reports profile %q (%v), declared %q\n%s", p, perr, want.profile, desc())
 		}
 	}
+	// the same token inside a COSE envelope, decoded into an Evidence that held a token of the other family before
+	if !isJSON && perm == 0 {
+		k1 := fixtures.Get("ES256", 1)
+		prot := protHeader("ES256")
+		env := envelope(prot, nil, t.cbor, rawSign(k1, "ES256", prot, t.cbor))
+		prior := c07PriorToken(3 - want.family)
+		used := &psatoken.Evidence{}
+		if prior != nil && used.UnmarshalCOSE(append([]byte{}, prior...)) == nil {
+			if uerr := used.UnmarshalCOSE(env); uerr != nil {
+				c.Failf("C07:used-evidence-decode:"+tag, "an Evidence that decoded another profile's token before rejects the token: %v\n%s", uerr, desc())
+			} else if got := fmt.Sprintf("%T", used.Claims); got != want.typ {
+				c.Failf("C07:used-evidence-dispatch:"+tag, "an Evidence that decoded another profile's token before exposes %s for a token declaring a profile registered as %s\n%s", got, want.typ, desc())
+			}
+		}
+	}
 	st.Outcome(fmt.Sprintf("dispatched:%s:valid=%v", want.typ, want.valid))
+}
+
+var c07Prior = map[int][]byte{}
+
+// c07PriorToken: a valid signed token of the given key family (1 or 2).
+func c07PriorToken(family int) []byte {
+	if t, ok := c07Prior[family]; ok {
+		return t
+	}
+	var t []byte
+	func() {
+		defer func() { recover() }()
+		t = c02MakeSeed("ES256", 2, map[int]int{1: 2, 2: 3}[family]).tok
+	}()
+	c07Prior[family] = t
+	return t
 }
 
 func showInput(in []byte, isJSON bool) string {
